@@ -58,6 +58,25 @@ def nonzero_guarded(cx, src, boxed, at):
     zero = SEXP_ZERO_WORD if boxed else 0
     for (a, pol, _g) in facts_at(cx, at):
         an = fn.nodes[a]
+        if an["k"] == "call" and an.get("o"):
+            # a one-return predicate of the same unit, `int zero_p(sexp x) { return x == SEXP_ZERO; }`:
+            # its (negated) truth is the comparison it returns, about the argument
+            g = fn.unit.functions.get(an["o"])
+            if g is not None and g.blocks and g is not fn:
+                rets = [g.strip(x["c"][0]) for x in g.nodes if x["k"] == "ret" and x.get("c")]
+                if len(rets) == 1 and g.nodes[rets[0]]["k"] == "bin" and g.nodes[rets[0]]["o"] in ("==", "!="):
+                    rn = g.nodes[rets[0]]
+                    gl, gr = g.strip(rn["c"][0]), g.strip(rn["c"][1])
+                    for x, y in ((gl, gr), (gr, gl)):
+                        if g.nodes[x]["k"] == "ref" and g.nodes[x].get("d") in g.params and g.const_val(y) == zero:
+                            ai = g.params.index(g.nodes[x]["d"])
+                            args = an["c"][1:]
+                            if ai < len(args):
+                                arg = fn.strip(args[ai])
+                                if fn.txt(arg) == want or fn.txt(_single_def(fn, arg)) == want:
+                                    if (rn["o"] == "!=") == pol:
+                                        return True
+            continue
         if an["k"] == "bin" and an["o"] in ("==", "!="):
             l, r = fn.strip(an["c"][0]), fn.strip(an["c"][1])
             for x, y in ((l, r), (r, l)):
